@@ -370,6 +370,9 @@ fn run_slow_stop(fault: u8, burst: bool) -> (Value, Vec<(String, String)>) {
         1 => spec.dest_fault = Some(Fault::ErrAt(5)),
         2 => spec.failpoints = 1,
         3 => spec.opts.stop_timeout_ms = Some(5),
+        // the writer's wait for the slow thread's attach stop is interrupted once (a signal handler without
+        // SA_RESTART in the dumping process): t0 = main, t1 = the blocked thread, t2 = the slow thread
+        4 => spec.plan.push(("wait:t2#0".into(), crate::env::Alt::Errno(libc::EINTR))),
         _ => {}
     }
     let t0 = std::time::Instant::now();
@@ -656,8 +659,8 @@ pub fn run(ctx: &Ctx, rep: &mut Report) {
             }
         }
     }
-    // slow-to-stop thread (vfork wait) under four fault contexts
-    let slow: Vec<(u8, bool)> = vec![(0, false), (1, false), (3, false), (0, true), (3, true)];
+    // slow-to-stop thread (vfork wait) under five fault contexts
+    let slow: Vec<(u8, bool)> = vec![(0, false), (1, false), (3, false), (4, false), (0, true), (3, true), (4, true)];
     let mut sres = par_map(&slow, |_, (f, burst)| {
         crate::watch::begin(json!({"slow_stop": f, "burst": burst}));
         let r = run_slow_stop(*f, *burst);
